@@ -271,38 +271,71 @@ Example C20_example_schedule :
   /\ length (cache _ _ st) = 1.
 Proof. vm_compute. repeat split. Qed.
 
-(* ---- non-vacuity of the complete model ---- *)
+(* ---- non-vacuity of the complete model ----
+   On the data of this run only what the repository's own test table (api_test.go) also pins, so that
+   an edit of the rule data that keeps the maintainers' tests green keeps these green too. *)
 
 Example C20_example_quiz :
   api_full true true (bs "quiz") = Ok (bs "quizzes")
   /\ api_reaches_suffix true (bs "my quiz") = true
-  /\ option_map snd (first_matching (api_rules true) (bs "my quiz")) = Some 3
   /\ api_full true true (bs "my quiz") = Ok (bs "my quizzes").
 Proof. vm_compute. repeat split. Qed.
 
 Example C20_example_matrices :
   api_full true false (bs "matrices") = Ok (bs "matrix")
-  /\ api_full true false (bs "MATRICES") = Ok (bs "MATRix")
-  /\ api_full true false (bs "taxesfaxes") = Ok (bs "taxfax").
-Proof. vm_compute. repeat split. Qed.
-
-(* non-ASCII: U+017F matches "(?i)s" in "(?i)([m|l])ouse$" and in "(?i)(s)tatus$" (and is captured);
-   e-acute is one rune for "[^aeiouy]"; an invalid byte is one rune too *)
-Example C20_example_non_ascii :
-  api_full true true (hx "6d6f75c5bf65") = Ok (bs "mice")
-  /\ api_full true true (hx "c5bf7461747573") = Ok (hx "c5bf74617475736573")
-  /\ api_full true true (hx "c3a979") = Ok (hx "c3a9696573")
-  /\ api_full true true (hx "ff79") = Ok (hx "ff696573")
   /\ api_full true false (hx "e697a5e69cac206d656e7573") = Ok (hx "e697a5e69cac206d656e75").
 Proof. vm_compute. repeat split. Qed.
 
-(* "$1s" names the group "1s" (Regexp.expand takes the longest name): Pluralize("hive") = "" *)
-Example C20_example_template_name :
-  api_full true true (bs "hive") = Ok [] /\ api_full true false (bs "hives") = Ok (bs "hife").
+(* the hypotheses of C20_api_suffix_shape_concrete / C20_api_irregular_skips_suffix_rules_concrete are satisfiable *)
+Example C20_example_reaches :
+  (exists s c a0, api_reaches_suffix true s = true /\ first_matching (api_rules true) s = Some (c, a0) /\ 0 < a0)
+  /\ api_reaches_suffix true (bs "old-person") = false /\ api_reaches_suffix true (bs "salesperson") = true.
+Proof.
+  split; [|vm_compute; split; reflexivity].
+  exists (bs "my quiz"). vm_compute. eexists. eexists. repeat split. lia.
+Qed.
+
+(* ---- the engine on a FIXED rule list (source strings written here, compiled by the model): these
+   do not depend on rules.go ---- *)
+
+Definition ex_plural : list crule := rules_of_src [
+  (bs "(?i)(s)tatus$", bs "${1}${2}tatuses"); (bs "(?i)([m|l])ouse$", bs "${1}ice");
+  (bs "(?i)([^aeiouy]|qu)y$", bs "${1}ies"); (bs "(?i)(hive)$", bs "$1s");
+  (bs "s$", bs "s"); (bs "^$", bs ""); (bs "$", bs "s") ].
+
+Definition ex_singular : list crule := rules_of_src [
+  (bs "(?i)^(.*)(menu)s$", bs "${1}${2}"); (bs "(?i)(alias)(es)*$", bs "$1");
+  (bs "(?i)([ftw]ax)es", bs "$1"); (bs "([^a])uses$", bs "${1}us");
+  (bs "(?i)(analy|diagno|^ba|(p)arenthe|(p)rogno|(s)ynop|(t)he)ses$", bs "${1}${2}sis");
+  (bs "(?i)s$", bs "") ].
+
+Example C20_example_engine_compiles : length ex_plural = 7 /\ length ex_singular = 6.
 Proof. vm_compute. split; reflexivity. Qed.
 
-(* an irregular word after a boundary is answered without the suffix rules *)
-Example C20_example_not_reached :
-  api_reaches_suffix true (bs "old-person") = false /\ api_reaches_suffix true (bs "NodeMedia") = false
-  /\ api_reaches_suffix true (bs "salesperson") = true.
+(* U+017F matches an "(?i)s" literal and is captured; e-acute and an invalid byte are one rune each for
+   "[^aeiouy]", and so is a newline; "$" alone matches the empty string at the end, exactly once *)
+Example C20_example_engine_non_ascii :
+  suffix_fn ex_plural (hx "6d6f75c5bf65") = bs "mice"
+  /\ suffix_fn ex_plural (hx "c5bf7461747573") = hx "c5bf74617475736573"
+  /\ suffix_fn ex_plural (hx "c3a979") = hx "c3a9696573"
+  /\ suffix_fn ex_plural (hx "ff79") = hx "ff696573"
+  /\ suffix_fn ex_plural (hx "0a79") = hx "0a696573"
+  /\ suffix_fn ex_plural (bs "bus") = bs "bus" /\ suffix_fn ex_plural [] = [] /\ suffix_fn ex_plural (bs "cat") = bs "cats".
 Proof. vm_compute. repeat split. Qed.
+
+(* an unanchored pattern is replaced at every match; "(es)*" is greedy; "." stops at a newline, so the
+   first rule does not match and the last one does; "^" inside an alternative; "${2}" is set by "(p)arenthe" *)
+Example C20_example_engine_singular :
+  suffix_fn ex_singular (bs "taxesfaxes") = bs "taxfax"
+  /\ suffix_fn ex_singular (bs "aliaseses") = bs "alias"
+  /\ suffix_fn ex_singular (bs "food_menus") = bs "food_menu"
+  /\ suffix_fn ex_singular (hx "610a6d656e7573") = hx "610a6d656e75"
+  /\ suffix_fn ex_singular (bs "bases") = bs "basis" /\ suffix_fn ex_singular (bs "abases") = bs "abase"
+  /\ suffix_fn ex_singular (bs "parentheses") = bs "parenthepsis"
+  /\ suffix_fn ex_singular (bs "viruses") = bs "virus" /\ suffix_fn ex_singular (bs "causes") = bs "cause".
+Proof. vm_compute. repeat split. Qed.
+
+(* "$1s" names the group "1s" (Regexp.expand takes the longest name), which does not exist *)
+Example C20_example_engine_template_name :
+  suffix_fn ex_plural (bs "hive") = [] /\ option_map snd (first_matching ex_plural (bs "my hive")) = Some 3.
+Proof. vm_compute. split; reflexivity. Qed.
